@@ -802,7 +802,10 @@ fn render_math(em: &mut Em, m: &MathOp) -> bool {
             // whichever way an inexact negative quotient is rounded, the result is within one divisor of a
             em.obs(&format!("abs({} - {} * {}) < abs({})", a, q, Val::Int(*b).lit_atom(), b), "true".into(), "div-within-one-divisor");
             let exact = a % b == 0;
-            if exact || ((*a < 0) == (*b < 0)) || *a == 0 {
+            // C18_DIV_ROUNDS_DOWN=1 (developer switch, off by default) additionally treats rounding toward negative
+            // infinity as the contract for negative inexact quotients; neither docs nor signature say so
+            let rounds_down = std::env::var("C18_DIV_ROUNDS_DOWN").map(|v| v == "1").unwrap_or(false);
+            if exact || ((*a < 0) == (*b < 0)) || *a == 0 || rounds_down {
                 em.obs(&format!("{} == {}", q, floor_div(*a, *b)), "true".into(), "math-eq");
                 em.label(if *a < 0 || *b < 0 { "div:negative-operand-specified" } else { "div:non-negative" });
             } else {
